@@ -30,8 +30,10 @@ WantKind(type) == CASE type \in {"gi", "ci"} -> "i" [] type \in {"gf", "cf"} -> 
                     [] type = "dist" -> "dist" [] type = "summary" -> "sum" [] OTHER -> "none"
 PtOK(type, p) == /\ p.val.k = WantKind(type)
                  /\ p.val.nil \in {"", "opts"} /\ p.val.neg = "" /\ p.val.ex # "badsc"
-TSOK(m, s) == ~s.nil /\ Len(s.lvs) = m.keys /\ \A i \in 1..Len(s.pts) : PtOK(m.type, s.pts[i])
+(* a nil series carries nothing: it may be skipped silently (like a nil metric) or reported *)
+TSOK(m, s) == s.nil \/ (Len(s.lvs) = m.keys /\ \A i \in 1..Len(s.pts) : PtOK(m.type, s.pts[i]))
 MetricOK(m) == ~m.nil /\ m.type \in Supported /\ \A i \in 1..Len(m.ts) : TSOK(m, m.ts[i])
+HasNilTS(m) == \E i \in 1..Len(m.ts) : m.ts[i].nil
 
 Attrs(s) == SelectSeq([i \in 1..Len(s.lvs) |-> IF s.lvs[i] = "p" THEN i ELSE 0], LAMBDA x : x > 0)
 ConvVal(v) ==
@@ -62,10 +64,10 @@ SubSeqs(s) == IF s = <<>> THEN {<<>>}
               ELSE LET r == SubSeqs(Tail(s)) IN r \cup {<<Head(s)>> \o x : x \in r}
 (* admissible results for one input metric *)
 Admissible(m) == IF m.nil \/ m.type \notin Supported THEN {Absent}
-                 ELSE IF MetricOK(m) THEN {Conv(m, GoodPts(m))}
+                 ELSE IF MetricOK(m) /\ ~HasNilTS(m) THEN {Conv(m, GoodPts(m))}
                  ELSE {Absent} \cup {Conv(m, p) : p \in SubSeqs(GoodPts(m))}
 ErrA(ms) == IF \E i \in 1..Len(ms) : ~ms[i].nil /\ ~MetricOK(ms[i]) THEN {TRUE}
-            ELSE IF \E i \in 1..Len(ms) : ms[i].nil THEN {TRUE, FALSE} ELSE {FALSE}
+            ELSE IF \E i \in 1..Len(ms) : ms[i].nil \/ HasNilTS(ms[i]) THEN {TRUE, FALSE} ELSE {FALSE}
 Result(ms) == [errA |-> ErrA(ms), ms |-> [i \in 1..Len(ms) |-> [rA |-> Admissible(ms[i])]]]
 
 Lists == UNION {[1..n -> Metrics] : n \in 0..MaxList}
@@ -79,6 +81,6 @@ View == <<done, res>>
 EmitEdge == PrintT("EDGE " \o ToJson([from |-> [done |-> done], act |-> act', to |-> [done |-> done'], out |-> res']))
 
 (* no loss, as a theorem of the model: a well-formed metric has exactly one admissible result, with all its points *)
-Inv == done => \A i \in 1..Len(act.ms) : MetricOK(act.ms[i]) =>
+Inv == done => \A i \in 1..Len(act.ms) : MetricOK(act.ms[i]) /\ ~HasNilTS(act.ms[i]) =>
           res.ms[i].rA = {Conv(act.ms[i], GoodPts(act.ms[i]))}
 =============================================================================
